@@ -182,6 +182,48 @@ def run(ctx):
                     kind = 'raises' if real.startswith('ERR') else ('should-raise' if spec.startswith('ERR') else 'wrong-mapping')
                     ctx.spec_fail('%s|%s' % (name, kind), '%s does not map each key to its values in table order / strict' % name, case)
 
+    # ---- lookup() into a dictionary that already holds some of the keys (one dictionary loaded from two tables): extended, in order
+    for ci in range(80 if ctx.thorough() else 24):
+        A = [['k', 'v']] + [[rng.choice([1, 2, 3]), 'a%d' % i] for i in range(rng.choice([1, 2, 4]))]
+        B = [['k', 'v']] + [[rng.choice([2, 3, 4]), 'b%d' % i] for i in range(rng.choice([1, 2, 4]))]
+        import collections as _c2
+        for target in ({}, _c2.OrderedDict()):
+            etl.lookup(A, 'k', 'v', dictionary=target)
+            etl.lookup(B, 'k', 'v', dictionary=target)
+            want = {}
+            for t_ in (A, B):
+                for k_, v_ in t_[1:]:
+                    want.setdefault(k_, []).append(v_)
+            ctx.case(('lookup-two-tables', repr(A), repr(B)))
+            ctx.count('lookup:two-tables')
+            if dict(target) != want:
+                ctx.spec_fail('lookup|dictionary-already-populated', 'lookup into a dictionary that already holds a key does not extend that key\'s list',
+                              {'first table': repr(A), 'second table': repr(B), 'dictionary': repr(dict(target)), 'want': repr(want)})
+    # ---- one Table object as the build side of two cached hash joins that square it up differently
+    for ci in range(80 if ctx.thorough() else 24):
+        L = [['id', 'a']] + [[rng.choice([1, 2, 3]), rng.choice('xy')] for _ in range(rng.choice([1, 3]))]
+        Rrows = [['id', 'b', 'c']] + [[rng.choice([1, 2, 3]), 'p'][:rng.choice([1, 2])] for _ in range(rng.choice([1, 2, 3]))]
+        Rw = etl.wrap(Rrows)
+        for name in ('hashjoin', 'hashleftjoin', 'hashlookupjoin'):
+            fn = getattr(etl, name)
+            list(fn(L, Rw, key='id', missing='first'))
+            got = util.run_show(lambda: fn(L, Rw, key='id', missing='second'))
+            want = util.run_show(lambda: fn(L, [list(r) for r in Rrows], key='id', missing='second'))
+            ctx.case(('shared-build-side', name, repr(L), repr(Rrows)))
+            ctx.count('shared-build-side')
+            if got != want:
+                ctx.spec_fail('%s|shared-build-side' % name, '%s: a second view over the same table object, with another `missing`, is not what a fresh copy of the table gives' % name,
+                              {'left': repr(L), 'right': repr(Rrows), 'real': got, 'want': want})
+        fn = etl.hashrightjoin
+        Lw = etl.wrap([['id', 'a', 'z']] + [[rng.choice([1, 2]), 'q'][:rng.choice([1, 2])] for _ in range(2)])
+        R2 = [['id', 'b']] + [[rng.choice([1, 2, 3]), 'r']]
+        list(fn(Lw, R2, key='id', missing='first'))
+        got = util.run_show(lambda: fn(Lw, R2, key='id', missing='second'))
+        want = util.run_show(lambda: fn([tuple(r) for r in Lw], R2, key='id', missing='second'))
+        if got != want:
+            ctx.spec_fail('hashrightjoin|shared-build-side', 'hashrightjoin: a second view over the same table object, with another `missing`, is not what a fresh copy of the table gives',
+                          {'left': repr(list(Lw)), 'right': repr(R2), 'real': got, 'want': want})
+
     # ---- argument forms the two join families must treat alike (no model involved): prefixes that are not strings, keys given
     # as negative positions; header and multiset of rows of the hash join = those of the merge join
     from collections import Counter as _Counter
